@@ -33,6 +33,9 @@ func c33Clients() []gridClient {
 		if want[n.Name] {
 			out = append(out, gridClient{Name: n.Name, ID: n.ID, PSK: !isGolang(n.ID) && specHasPSK(n.ID)})
 		}
+		if n.Name == "HelloChrome_112_PSK_Shuf" {
+			out = append(out, fakePSKInjected(n))
+		}
 	}
 	return out
 }
@@ -66,6 +69,8 @@ type msgInfo struct {
 var (
 	c33ProbeMu sync.Mutex
 	c33Probes  = map[string][]msgInfo{}
+	// flights whose unmutated run made the client panic
+	c33ProbePanics = map[string]string{}
 )
 
 // mutation kinds
@@ -167,6 +172,9 @@ func probeFlight(g gridClient, f flight) []msgInfo {
 	}
 	var rec []msgInfo
 	hs := runFlight(g, f, nil, &rec)
+	if hs.CPanic != "" {
+		c33ProbePanics[key] = hs.CPanic // the UNMUTATED flight crashes the client
+	}
 	if !hs.OK() {
 		rec = nil // this client cannot run this flight (e.g. version not offered): skipped
 	}
@@ -208,6 +216,13 @@ func c33Mutations(thorough bool) *explore.Scenario {
 			g := clients[x.Choose("client", len(clients))]
 			f := flights[x.Choose("flight", len(flights))]
 			msgs := probeFlight(g, f)
+			c33ProbeMu.Lock()
+			pp := c33ProbePanics[g.Name+"|"+f.name]
+			c33ProbeMu.Unlock()
+			if pp != "" {
+				r.Violate(fmt.Sprintf("C33|client-panic|flight=%s|unmutated|%s", f.name, errClass(fmt.Errorf("%s", firstLineOf(pp)))), "%s %s: the client panicked on the server's ordinary, unmutated flight: %s", g.Name, f.name, truncStr(pp, 600))
+				return
+			}
 			if len(msgs) == 0 {
 				r.Obs = "flight-not-available"
 				return
